@@ -185,6 +185,11 @@ def lift(f, j, ctx, ku, ii, notes=None):
                 w = lift(g, j, ctx, ku, ii, n2)
             except NotImage:
                 continue
+            finally:
+                # several distinct readings INSIDE an alternative make the whole reading undecided, whether or not
+                # that alternative's reading ends up chosen (as Ser/DocReading.ambiguous searches every alternative):
+                # the reading dropped there may be the one the document stands for
+                notes.merge(n2)
             if option_accepts(g, w, ctx):
                 cands.append((w, n2))
         uniq = []
